@@ -527,3 +527,224 @@ Section Local.
     first [apply (copy_local r dst _ _ q qd Eq Ed) | apply (move_local r dst _ q qd Eq Ed) | apply agree_same].
   Qed.
 End Local.
+
+(** ** Every action of a client: frame and locality *)
+Lemma nonempty_below_spec c p : nonempty_below c p = true -> exists q, p = c ++ q /\ q <> [].
+Proof.
+  unfold nonempty_below. destruct (strip_prefix c p) as [[|x q]|] eqn:E; try discriminate.
+  intros _. apply strip_prefix_spec in E. exists (x :: q). split; [exact E | discriminate].
+Qed.
+
+Lemma act_frame root c y s a :
+  (forall q, incomparable (hp root (c ++ q)) y = true) -> owns c a = true ->
+  geto (fst (act_step root s a)) y = geto s y.
+Proof.
+  intros Hfar O. destruct a as [r|p|p x|p|src dst ow]; cbn [act_step fst owns] in *; try reflexivity.
+  - apply serve_frame with (c := c); auto.
+  - destruct (nonempty_below_spec _ _ O) as (q & -> & _).
+    destruct (seto s (root ++ c ++ q) x) eqn:E; [|reflexivity]. cbn [fst].
+    eapply geto_seto_far; [exact E | apply (Hfar q)].
+  - destruct (nonempty_below_spec _ _ O) as (q & -> & _). apply geto_remo_far. apply (Hfar q).
+Qed.
+
+Lemma act_agree root c ch s1 s2 a :
+  geto s1 (root ++ c) = Some (Dir ch) -> geto s2 (root ++ c) = Some (Dir ch) -> owns c a = true ->
+  snd (act_step root s1 a) = snd (act_step root s2 a) /\
+  geto (fst (act_step root s1 a)) (root ++ c) = geto (fst (act_step root s2 a)) (root ++ c) /\
+  is_dir (geto (fst (act_step root s1 a)) (root ++ c)) = true.
+Proof.
+  intros Hv1 Hv2 O.
+  assert (SAME : forall (x : result), (x = x) /\ geto s1 (root ++ c) = geto s2 (root ++ c) /\ is_dir (geto s1 (root ++ c)) = true).
+  { intro x. rewrite Hv1, Hv2. auto. }
+  destruct a as [r|p|p x|p|src dst ow]; cbn [act_step fst snd owns] in *.
+  - destruct (serve_local root c ch s1 s2 Hv1 Hv2 r O) as (A & B & C). rewrite A. auto.
+  - apply is_prefix_spec in O. destruct O as [q ->].
+    pose proof (lk root c ch s1 Hv1 q) as L1. pose proof (lk root c ch s2 Hv2 q) as L2.
+    unfold hp in L1, L2. rewrite L1, L2. apply SAME.
+  - destruct (nonempty_below_spec _ _ O) as (q & -> & Hq).
+    pose proof (set_both root c ch s1 s2 Hv1 Hv2 q x Hq) as S. unfold hp in S.
+    destruct (seto s1 (root ++ c ++ q) x) as [t1|]; destruct (seto s2 (root ++ c ++ q) x) as [t2|];
+      try contradiction; cbn [fst snd]; [|apply SAME].
+    destruct S as [S1 S2]. auto.
+  - destruct (nonempty_below_spec _ _ O) as (q & -> & Hq).
+    destruct (rm_both root c ch s1 s2 Hv1 Hv2 q Hq) as [A [ch' B]]. unfold hp in A, B.
+    split; [reflexivity|]. split; [exact A|]. rewrite B. reflexivity.
+  - destruct (segs_under c src) as [qs|] eqn:E1; [|discriminate].
+    destruct (segs_under c dst) as [qd|] eqn:E2; [|discriminate].
+    apply segs_under_spec in E1. apply segs_under_spec in E2.
+    rewrite (checks_local root c ch s1 s2 Hv1 Hv2 src dst ow qs qd E1 E2). apply SAME.
+Qed.
+
+(** ** The instance of the generic theorem *)
+Section Clients.
+  Variables (root : path) (colls : list path) (Ret : Type).
+  Hypothesis PI : pairwise_incomparable colls = true.
+
+  Definition cacts (i : nat) (a : act) : Prop := exists c, nth_error colls i = Some c /\ owns c a = true.
+  Definition cok (v : option node) : Prop := view_ok v = true.
+
+  Lemma c_frame i j a s : cacts i a -> j <> i -> cview root colls j (fst (act_step root s a)) = cview root colls j s.
+  Proof.
+    intros (c & N & O) NE. unfold cview. destruct (nth_error colls j) as [c'|] eqn:M; [|reflexivity].
+    apply act_frame with (c := c); auto. intro q. unfold hp.
+    rewrite incomparable_root. rewrite <- (app_nil_r c'). apply incomparable_below.
+    eapply pairwise_nth; eauto.
+  Qed.
+
+  Lemma c_local i a s1 s2 : cacts i a -> cok (cview root colls i s1) -> cview root colls i s1 = cview root colls i s2 ->
+    snd (act_step root s1 a) = snd (act_step root s2 a) /\
+    cview root colls i (fst (act_step root s1 a)) = cview root colls i (fst (act_step root s2 a)).
+  Proof.
+    intros (c & N & O) K E. unfold cview, cok, view_ok in *. rewrite N in *.
+    destruct (geto s1 (root ++ c)) as [[? ?|ch]|] eqn:V1; try discriminate. symmetry in E.
+    destruct (act_agree root c ch s1 s2 a V1 E O) as (A & B & _). auto.
+  Qed.
+
+  Lemma c_keep i a s : cacts i a -> cok (cview root colls i s) -> cok (cview root colls i (fst (act_step root s a))).
+  Proof.
+    intros (c & N & O) K. unfold cview, cok, view_ok in *. rewrite N in *.
+    destruct (geto s (root ++ c)) as [[? ?|ch]|] eqn:V1; try discriminate.
+    destruct (act_agree root c ch s s a V1 V1 O) as (_ & _ & C). exact C.
+  Qed.
+
+  Notation prog := (tprog act result Ret).
+  Definition cowned := owned act result Ret cacts.
+  Definition cwf := wf (option node) act result Ret cacts.
+  Definition csim := sim (option node) act result Ret (option node) (cview root colls) cok.
+
+  (** Clients of pairwise disjoint collections of one served directory, each running an
+      adaptive program of its own actions (whole requests through [serve], or single
+      OS calls below its collection): two schedules that give client i equally many
+      steps leave it with the same continuation — at the end the same result — and
+      the same subtree at its collection. *)
+  Theorem clients_sim i sched sched' (g g' : list prog * option node) :
+    cwf g -> cwf g' -> count_occ Nat.eq_dec sched i = count_occ Nat.eq_dec sched' i ->
+    csim i g g' -> csim i (trun (act_step root) g sched) (trun (act_step root) g' sched').
+  Proof. apply threads_sim; [apply c_frame | apply c_local | apply c_keep]. Qed.
+
+  Theorem clients_alone i sched (g : list prog * option node) :
+    cwf g -> cok (cview root colls i (snd g)) ->
+    csim i (trun (act_step root) g sched) (trun (act_step root) g (repeat i (count_occ Nat.eq_dec sched i))).
+  Proof. apply threads_alone; [apply c_frame | apply c_local | apply c_keep]. Qed.
+
+  Theorem clients_stalled_harmless i j sched (g : list prog * option node) :
+    cwf g -> cok (cview root colls i (snd g)) -> i <> j ->
+    csim i (trun (act_step root) g sched) (trun (act_step root) g (remove Nat.eq_dec j sched)).
+  Proof. apply stalled_harmless; [apply c_frame | apply c_local | apply c_keep]. Qed.
+End Clients.
+
+(** * 3. Programs run alone, and what that means in terms of [serve] / [run] *)
+
+Fixpoint exec_prog {Ret} (root : path) (p : tprog act result Ret) (s : option node) : option node * Ret :=
+  match p with
+  | TRet r => (s, r)
+  | TCall a k => let sr := act_step root s a in exec_prog root (k (snd sr)) (fst sr)
+  end.
+
+Lemma upd_nth_twice {A} (l : list A) : forall i x y, upd_nth i x (upd_nth i y l) = upd_nth i x l.
+Proof. induction l as [|a l IH]; intros [|i] x y; simpl; auto. rewrite IH. reflexivity. Qed.
+
+Lemma upd_nth_same {A} (l : list A) : forall i x, nth_error l i = Some x -> upd_nth i x l = l.
+Proof.
+  induction l as [|a l IH]; intros [|i] x H; simpl in *; try discriminate; auto.
+  - inversion H. reflexivity.
+  - rewrite IH; auto.
+Qed.
+
+(** scheduled alone and long enough, a thread ends with [exec_prog]'s result and state *)
+Lemma alone_exec {Ret} root (p : tprog act result Ret) : forall progs s i,
+  nth_error progs i = Some p ->
+  exists n, forall m, n <= m ->
+    trun (act_step root) (progs, s) (repeat i m) =
+    (upd_nth i (TRet (snd (exec_prog root p s))) progs, fst (exec_prog root p s)).
+Proof.
+  induction p as [r|a k IH]; intros progs s i N.
+  - exists 0. intros m _. cbn [exec_prog fst snd]. rewrite (upd_nth_same _ _ _ N).
+    induction m as [|m IHm]; [reflexivity|]. cbn [repeat trun fold_left].
+    unfold tstep at 2. cbn [fst snd]. rewrite N. exact IHm.
+  - set (sr := act_step root s a).
+    assert (N' : nth_error (upd_nth i (k (snd sr)) progs) i = Some (k (snd sr))) by (eapply nth_upd_same; eauto).
+    destruct (IH (snd sr) (upd_nth i (k (snd sr)) progs) (fst sr) i N') as [n Hn].
+    exists (S n). intros m Hm. destruct m as [|m]; [lia|].
+    cbn [repeat trun fold_left]. unfold tstep at 2. cbn [fst snd]. rewrite N. fold sr.
+    unfold trun in Hn. rewrite (Hn m) by lia. cbn [exec_prog]. fold sr.
+    rewrite upd_nth_twice. reflexivity.
+Qed.
+
+(** a client's list of requests, as a program, is [DavServer.run] *)
+Lemma exec_requests root (rs : list request) : forall acc s,
+  exec_prog root (of_list acc (map AReq rs) (fun l => l)) s =
+  (fst (run root s rs), rev acc ++ map RResp (snd (run root s rs))).
+Proof.
+  induction rs as [|r rs IH]; intros acc s.
+  - cbn. rewrite app_nil_r. reflexivity.
+  - cbn [map of_list exec_prog act_step fst snd run].
+    rewrite IH. destruct (serve root s r) as [s1 resp]. cbn [fst snd].
+    destruct (run root s1 rs) as [s2 resps]. cbn [fst snd rev map].
+    rewrite <- app_assoc. reflexivity.
+Qed.
+
+(** a program of [k] requests has finished after [k] steps of its own *)
+Lemma requests_finish root i (rs : list request) : forall progs s acc m,
+  nth_error progs i = Some (of_list acc (map AReq rs) (fun l => l)) -> List.length rs <= m ->
+  trun (act_step root) (progs, s) (repeat i m) =
+  (upd_nth i (TRet (snd (exec_prog root (of_list acc (map AReq rs) (fun l => l)) s))) progs,
+   fst (exec_prog root (of_list acc (map AReq rs) (fun l => l)) s)).
+Proof.
+  induction rs as [|r rs IH]; intros progs s acc m NP Hm.
+  - cbn [map of_list exec_prog fst snd] in *. rewrite (upd_nth_same _ _ _ NP).
+    clear Hm. induction m as [|m IHm]; [reflexivity|]. cbn [repeat trun fold_left].
+    unfold tstep at 2. cbn [fst snd]. rewrite NP. apply IHm.
+  - destruct m as [|m]; [cbn in Hm; lia|]. cbn [repeat trun fold_left].
+    unfold tstep at 2. cbn [fst snd]. rewrite NP. cbn [map of_list].
+    set (sr := act_step root s (AReq r)).
+    unfold trun in IH.
+    rewrite (IH (upd_nth i (of_list (snd sr :: acc) (map AReq rs) (fun l => l)) progs) (fst sr) (snd sr :: acc) m).
+    + cbn [exec_prog]. fold sr. rewrite upd_nth_twice. reflexivity.
+    + eapply nth_upd_same; eauto.
+    + cbn in Hm. lia.
+Qed.
+
+Section ServeLevel.
+  Variables (root : path) (colls : list path).
+  Hypothesis PI : pairwise_incomparable colls = true.
+
+  Notation prog := (tprog act result (list result)).
+
+  Definition requests_prog (rs : list request) : prog := of_list [] (map AReq rs) (fun l => l).
+
+  Lemma of_list_owned i c (rs : list request) : nth_error colls i = Some c ->
+    forallb (req_of_client c) rs = true ->
+    forall acc, cowned colls (list result) i (of_list acc (map AReq rs) (fun l => l)).
+  Proof.
+    intros N. induction rs as [|r rs IH]; intros F acc; cbn; [exact I|].
+    cbn in F. apply andb_true_iff in F. destruct F as [F1 F2].
+    split; [exists c; auto|]. intro b. apply IH. exact F2.
+  Qed.
+
+  (** THE statement over [DavServer.serve] / [run]: clients on pairwise disjoint
+      collections of one root, each issuing its own requests one after another; under
+      ANY schedule that lets client i issue all its requests — whatever the others
+      do, however far they get — client i receives the responses, and its
+      collection ends as the subtree, that [run root s0 rs_i] gives it alone. *)
+  Theorem serve_any_interleaving_alone (progs : list prog) s0 i c rs sched :
+    cwf colls (list result) (progs, s0) ->
+    nth_error colls i = Some c -> nth_error progs i = Some (requests_prog rs) ->
+    view_ok (geto s0 (root ++ c)) = true ->
+    List.length rs <= count_occ Nat.eq_dec sched i ->
+    let g := trun (act_step root) (progs, s0) sched in
+    nth_error (fst g) i = Some (TRet (map RResp (snd (run root s0 rs)))) /\
+    geto (snd g) (root ++ c) = geto (fst (run root s0 rs)) (root ++ c).
+  Proof.
+    intros W NC NP K LE g.
+    assert (K' : cok (cview root colls i (snd (progs, s0)))) by (unfold cok, cview; cbn [snd]; rewrite NC; exact K).
+    destruct (clients_alone root colls (list result) PI i sched (progs, s0) W K') as (A & B & _).
+    fold g in A, B.
+    pose proof (requests_finish root i rs progs s0 [] (count_occ Nat.eq_dec sched i) NP LE) as FIN.
+    unfold requests_prog in *.
+    rewrite FIN in A, B. cbn [fst snd] in A, B.
+    unfold requests_prog in A, B. rewrite exec_requests in A, B. cbn [fst snd rev app] in A, B.
+    rewrite (nth_upd_same _ _ _ _ NP) in A.
+    split; [exact A|]. unfold cview in B. rewrite NC in B. exact B.
+  Qed.
+End ServeLevel.
